@@ -66,7 +66,7 @@ CHECKS = {
    "DESIGN.md §4 C13", "E1 simnet"),
  "C14": ("exploration",
    "runtime monitor vs. name-acceptance model (verifiers + simnet + adversary)",
-   "Verifier-level triples (accepted names, certificate name, dialed name) and end-to-end dials among Networks with (primary, alternate) names, an adversarial dialer with every (hello name, certificate name) pair and an adversarial listener (dialed plainly and naming its real identity), all compared with the model.",
+   "Verifier-level triples (accepted names, certificate name, dialed name) and end-to-end dials among Networks with (primary, alternate) names, an adversarial dialer with every (hello name, certificate name) pair and an adversarial listener (dialed plainly and naming its real identity), all compared with the model; in every scenario one private key serves two name configurations in turn (restart in place, restart elsewhere, second live endpoint) and an adversary admitted by the first returns to the second with its TLS session store.",
    "Case variants and wildcard certificates not judged.",
    "DESIGN.md §4 C14", "E1 simnet + E3 component"),
  "C15": ("exploration",
